@@ -25,6 +25,7 @@ struct Env {
     std::map<std::string, double> val;
     std::map<std::string, double> root12; // only for symbols declared positive
     std::map<std::string, double> fsym;   // values of opaque function applications f(args) keyed by their printed form
+    bool sqrt_only = false;               // the harness uses no radicals other than square roots: v**(p/2) through a degree-2 root
 };
 
 inline double real_const(const char *name, double native, double lo, double hi)
@@ -168,6 +169,18 @@ inline double pow_value(const Basic &base, const Basic &ex, Env &env)
         if (12 % d != 0)
             throw Unsupported{"rational exponent with denominator not dividing 12"};
         double r;
+        if (env.sqrt_only && d == 2 && !is_a<Symbol>(base)) {
+            // principal square root as its own symbol: r >= 0, r*r == v (keeps the solver's polynomials at degree 2)
+            double v = ev(base, env);
+            double r2 = v;
+            if (verif_symbolic_exec() && !g_numeric) {
+                r2 = verif_uf1("ROOT2", v);
+                verif_axiom(v < 0 || r2 >= 0);
+                verif_axiom(v < 0 || r2 * r2 == v);
+            } else
+                r2 = std::sqrt(v);
+            return ipow(r2, p);
+        }
         if (is_a<Symbol>(base)) {
             auto it = env.root12.find(down_cast<const Symbol &>(base).get_name());
             if (it == env.root12.end())
